@@ -62,7 +62,8 @@ CHECKS = {
         text=("Dispatch.tla models put / try-acquire / check / pop / run / clear / release / re-check for N senders at statement grain in "
               "threads and asyncio modes; TLC checks Mutex, ExactlyOnce, SenderFIFO, NothingStranded, DroppedNeverRun, LockOwner exhaustively "
               "(2x2, 3x1, thorough 3x2 senders x events; nested send, failure) and keeps the counterexamples of the rejected protocol "
-              "variants. Real OS threads stepped at every line boundary of the dispatch code (all schedules with <=2-3 preemptions) and "
+              "variants; it also checks that Dispatch refines the counter abstraction DispatchCore.tla, for which Apalache proves an "
+              "inductive invariant implying NothingStranded for 3 senders and an unbounded number of events. Real OS threads stepped at every line boundary of the dispatch code (all schedules with <=2-3 preemptions) and "
               "asyncio tasks stepped one ready handle at a time (all choice sequences) are validated by TLC against Trace_Dispatch.tla; "
               "TLC-sampled schedules are replayed on real threads by statement label."),
         design_ref="DESIGN.md 5 C06",
